@@ -263,6 +263,34 @@ impl MachineState {
         )
     }
 
+    // Integers and rationals that live in the arena are keyed by their address in the
+    // constant table, so a number computed at run time (or read into a fresh cell) never
+    // hashes to the key of an equal number: look such arguments up by value.
+    pub(crate) fn select_switch_on_number_by_value(
+        &self,
+        addr: HeapCellValue,
+        hm: &IndexMap<HeapCellValue, IndexingCodePtr, FxBuildHasher>,
+    ) -> IndexingCodePtr {
+        if addr.get_tag() != HeapCellValueTag::Cons {
+            return IndexingCodePtr::Fail;
+        }
+
+        let n = match Number::try_from((addr, &self.arena.f64_tbl)) {
+            Ok(n @ (Number::Integer(_) | Number::Rational(_))) => n,
+            _ => return IndexingCodePtr::Fail,
+        };
+
+        for (key, offset) in hm.iter() {
+            if let Ok(k) = Number::try_from((*key, &self.arena.f64_tbl)) {
+                if !matches!(k, Number::Float(_)) && k == n {
+                    return *offset;
+                }
+            }
+        }
+
+        IndexingCodePtr::Fail
+    }
+
     #[inline(always)]
     pub(crate) fn select_switch_on_structure_index(
         &self,
@@ -1470,7 +1498,7 @@ impl Machine {
 
                     let offset = match hm.get(&addr) {
                         Some(offset) => *offset,
-                        _ => IndexingCodePtr::Fail,
+                        _ => self.machine_st.select_switch_on_number_by_value(addr, hm),
                     };
 
                     match offset {
